@@ -2,6 +2,7 @@
 package c06
 
 import (
+	"github.com/ucan-wg/go-ucan/did"
 	"strings"
 	"github.com/ipld/go-ipld-prime/datamodel"
 	"github.com/ipld/go-ipld-prime/node/basicnode"
@@ -76,7 +77,7 @@ type Case struct {
 
 var byteKinds = []string{"bitflip", "delete", "insert-00", "insert-ff", "insert-copy", "subst-00", "subst-ff", "subst-not"}
 var fieldKinds = []string{"rewrite", "remove", "add-unknown"}
-var sigKinds = []string{"issuer-signs-noncanonical-bytes", "issuer-signs-noncanonical-bytes", "resign-by-prefix-twin", "forger-signs-multi-payload-envelope", "forger-signs-multi-payload-envelope", "forger-key-in-did-url", "forger-key-in-did-url", "issuer-under-other-multicodec", "issuer-under-other-multicodec", "issuer-signs-other-payload-encoding", "issuer-signs-other-payload-encoding", "issuer-signs-header-insert", "issuer-signs-header-insert", "issuer-signs-header-delete", "issuer-signs-header-subst", "issuer-signs-header-dup-segment", "issuer-signs-foreign-header", "issuer-signs-garbled-header", "issuer-signs-empty-header", "issuer-signs-extended-header", "resign-other-same-alg", "resign-other-alg", "resign-signer-header", "borrow-signature", "header-other-alg", "header-garbled", "header-empty", "sig-truncate", "sig-empty", "sig-extend", "sig-zero", "ecdsa-forged-for-zero-digest", "ecdsa-forged-for-zero-digest", "ecdsa-trivial-values"}
+var sigKinds = []string{"issuer-signs-principal-in-other-key-encoding", "issuer-signs-principal-in-other-key-encoding", "issuer-signs-principal-in-other-key-encoding", "issuer-signs-noncanonical-bytes", "issuer-signs-noncanonical-bytes", "resign-by-prefix-twin", "forger-signs-multi-payload-envelope", "forger-signs-multi-payload-envelope", "forger-key-in-did-url", "forger-key-in-did-url", "issuer-under-other-multicodec", "issuer-under-other-multicodec", "issuer-signs-other-payload-encoding", "issuer-signs-other-payload-encoding", "issuer-signs-header-insert", "issuer-signs-header-insert", "issuer-signs-header-delete", "issuer-signs-header-subst", "issuer-signs-header-dup-segment", "issuer-signs-foreign-header", "issuer-signs-garbled-header", "issuer-signs-empty-header", "issuer-signs-extended-header", "resign-other-same-alg", "resign-other-alg", "resign-signer-header", "borrow-signature", "header-other-alg", "header-garbled", "header-empty", "sig-truncate", "sig-empty", "sig-extend", "sig-zero", "ecdsa-forged-for-zero-digest", "ecdsa-forged-for-zero-digest", "ecdsa-trivial-values"}
 
 var dlgFields = []string{"iss", "aud", "sub", "cmd", "pol", "nonce", "meta", "nbf", "exp"}
 var invFields = []string{"iss", "aud", "sub", "cmd", "args", "prf", "nonce", "meta", "exp", "iat", "cause"}
@@ -187,6 +188,56 @@ func rewriteField(p val.V, tag string, field string, alt int) (val.V, bool) {
 
 // corrupt builds the corrupted input; oldSig tells whether it carries the
 // original signature (clause c applies).
+// altKeyEncodingDID: a did:key string carrying the key of k under its own multicodec in another encoding of the
+// same key material.
+func altKeyEncodingDID(k tok.KeyRef, alt int) (string, bool) {
+	key := k.Key()
+	_, raw, derr := mbase.Decode(key.DID.String()[len("did:key:"):])
+	if derr != nil {
+		return "", false
+	}
+	_, n, verr := varint.FromUvarint(raw)
+	if verr != nil {
+		return "", false
+	}
+	code, canon := raw[:n], raw[n:]
+	var kb []byte
+	switch k.Alg {
+	case keys.RSA:
+		switch alt % 3 {
+		case 0:
+			kb, _ = key.Pub.Raw() // PKIX SubjectPublicKeyInfo
+		case 1: // RSAPublicKey with a third element
+			if len(canon) < 4 || canon[0] != 0x30 || canon[1] != 0x82 {
+				return "", false
+			}
+			l := int(canon[2])<<8 | int(canon[3]) + 3
+			kb = append(append([]byte{0x30, 0x82, byte(l >> 8), byte(l)}, canon[4:]...), 0x02, 0x01, 0x00)
+		default: // RSAPublicKey followed by a byte
+			kb = append(append([]byte{}, canon...), 0x00)
+		}
+	case keys.Ed25519:
+		kb = append(append([]byte{}, canon...), 0x00)
+	default:
+		curve, x, y, ok := pubPoint(k.Alg, key.Pub)
+		if !ok {
+			return "", false
+		}
+		kb = elliptic.Marshal(curve, x, y)
+		if alt%2 == 1 {
+			kb[0] = 6 + byte(y.Bit(0))
+		}
+	}
+	if len(kb) == 0 {
+		return "", false
+	}
+	enc, err := mbase.Encode(mbase.Base58BTC, append(append([]byte{}, code...), kb...))
+	if err != nil {
+		return "", false
+	}
+	return "did:key:" + enc, true
+}
+
 func corrupt(cs Case, sealed []byte) (out []byte, oldSig bool, ok bool) {
 	c := cs.C
 	switch c.Kind {
@@ -333,6 +384,35 @@ func corrupt(cs Case, sealed []byte) (out []byte, oldSig bool, ok bool) {
 			return nil, false, false
 		}
 		b, err := env.Seal(forger.Priv, sp)
+		return b, false, err == nil
+	case "issuer-signs-principal-in-other-key-encoding":
+		// iss, aud or sub (c.Alt picks) is written as a did:key whose key bytes are ANOTHER encoding of a key - the
+		// SubjectPublicKeyInfo of an RSA key instead of its RSAPublicKey, the RSAPublicKey with a trailing element,
+		// the uncompressed or hybrid form of a curve point - and the issuer signs that payload with its own key. A
+		// decoder may refuse the identifier; if it returns a token, the principals it reports are the strings that
+		// were signed, not a normalised rendering of them.
+		field := []string{"iss", "aud", "sub", "iss"}[c.Alt%4]
+		who := iss
+		if field != "iss" {
+			who = otherKey(iss, (c.Alt/4)%2 == 0, c.Alt/4)
+		}
+		alt, aok := altKeyEncodingDID(who, c.Alt/8)
+		if !aok {
+			return nil, false, false
+		}
+		np := val.V{K: "map"}
+		found := false
+		for _, kv := range payload.M {
+			if kv.K == field {
+				kv.V = val.Str(alt)
+				found = true
+			}
+			np.M = append(np.M, kv)
+		}
+		if !found {
+			np.M = append(np.M, val.KV{K: field, V: val.Str(alt)})
+		}
+		b, err := env.SignPayload(iss.Key().Priv, e.Tag, np.Node())
 		return b, false, err == nil
 	case "forger-key-in-did-url":
 		// iss names the victim's did:key FOLLOWED by DID-URL parts that carry the forger's key (fragment, query, path,
@@ -766,6 +846,17 @@ func run(c *h.Ctx, cs Case) {
 		if vinErr != nil {
 			c.Fail("C06/accepted-malformed-payload/"+cs.C.Kind, "%s returned a token, but the harness cannot read the payload fields of the input: %v", d.name, vinErr)
 			continue
+		}
+		// the principals, as TEXT: what the issuer signed is a string; the token reports that string
+		for _, f := range []struct {
+			name string
+			got  did.DID
+		}{{"iss", v1.Iss}, {"aud", v1.Aud}, {"sub", v1.Sub}} {
+			if fn, lerr := e.Payload.LookupByString(f.name); lerr == nil && fn.Kind() == ipld.Kind_String && f.got.Defined() {
+				if signed, _ := fn.AsString(); f.got.String() != signed {
+					c.Fail("C06/returned-differs-from-input/"+f.name+"-text", "%s: the signed payload names %s = %q, the returned token reports %q\ncorruption %+v", d.name, f.name, signed, f.got.String(), cs.C)
+				}
+			}
 		}
 		if diff := tok.Diff(vin, v1); diff != "" {
 			c.Fail("C06/returned-differs-from-input/"+tok.Field(diff), "%s: returned token differs from the payload that was signed: %s\ncorruption %+v", d.name, diff, cs.C)
